@@ -345,8 +345,11 @@ func knownClass(in *asmInput) string {
 
 func asmShape(in *asmInput, o obs) ([]string, bool) {
 	tags := []string{"case:asm"}
-	resets, ctrl := 0, 0
+	resets, ctrl, stall := 0, 0, false
 	for _, op := range in.Cfg.Script {
+		if op.Kind == "S" {
+			stall = true
+		}
 		if op.Kind == "C" {
 			ctrl++
 			if op.Cmd == "reset" {
@@ -370,18 +373,21 @@ func asmShape(in *asmInput, o obs) ([]string, bool) {
 	if !o.Done {
 		tags = append(tags, "script-incomplete")
 	}
+	if stall {
+		tags = append(tags, "rsp-stall")
+	}
 	midReset := false
 	seenData := 0
 	total := 0
 	for _, op := range in.Cfg.Script {
-		if op.Kind != "C" {
+		if op.Kind == "R" || op.Kind == "W" {
 			total++
 		}
 	}
 	for _, op := range in.Cfg.Script {
-		if op.Kind != "C" {
+		if op.Kind == "R" || op.Kind == "W" {
 			seenData++
-		} else if op.Cmd == "reset" && seenData > 0 && seenData < total {
+		} else if op.Kind == "C" && op.Cmd == "reset" && seenData > 0 && seenData < total {
 			midReset = true
 		}
 	}
@@ -788,7 +794,10 @@ func init() {
 			"control verbs issued back to back. " +
 			"api: random interleavings of request / buffer / subtask lifecycles over 1-3 domains and real ports, each closed by the normal " +
 			"helper or by the reset helper, plus scripts left open. Non-trivial: asm with a Reset in the middle of traffic, >= 20 tasks and " +
-			"the script completed; api closed with resets and >= 5 tasks. Distinct = distinct input hash. Quick tier: an assembly whose " +
+			"the script completed; api closed with resets and >= 5 tasks. Distinct = distinct input hash. In every sampled kind (asm about 2/5 " +
+			"of the cases, vm 1/3 of the mid-traffic histories, lm as one of the history shapes) the requester may stop retrieving data " +
+			"responses for a window (Top-port back-pressure on the top module) into which the verbs and resets of a control history fall. " +
+			"Quick tier: an assembly whose " +
 			"trace exceeds 3000 events is drawn again (up to 3 times). Sampled traces reach Coq with task IDs renumbered 1,2,3.. in order " +
 			"of first appearance (the acceptor compares IDs only for equality).",
 		Gen: gen, Run: run, Shrink: shrink,
